@@ -80,7 +80,7 @@ func (checker *ChecksumChecker) Value(t *ast.Task) (any, error) {
 }
 
 func (checker *ChecksumChecker) OnError(t *ast.Task) error {
-	if len(t.Sources) == 0 {
+	if len(t.Sources) == 0 || checker.dry {
 		return nil
 	}
 	_ = os.Remove(checker.checksumFilePath(t) + pendingSuffix)
